@@ -31,6 +31,9 @@ type PipeCase struct {
 	RealSnap   bool   `json:"real_snap"`
 	StallMs    int    `json:"stall_ms,omitempty"`  // the source pauses this long once (a long-running table)
 	BigMulti   bool   `json:"big_multi,omitempty"` // multipolygons with up to several hundred parts
+	// LagMs > 0: a long stream in which one target stops reading for that long early on (everything the pipeline may buffer
+	// piles up behind it), and the source pauses for LagMs+1000 ms after two thirds of the stream so that the target catches up
+	LagMs int `json:"lag_ms,omitempty"`
 }
 
 func (pc *PipeCase) JSON() []byte { b, _ := json.Marshal(pc); return b }
@@ -92,12 +95,17 @@ type psource struct {
 	log     *plog
 	delay   func(i int) int
 	stallMs int
+	pauseAt int // index before which the source pauses pauseMs (0 = never)
+	pauseMs int
 }
 
 func (s *psource) ReadFeatures(ch chan<- processing.Feature) {
 	for i, f := range s.feats {
 		if s.stallMs > 0 && i == min(2, len(s.feats)-1) {
 			time.Sleep(time.Duration(s.stallMs) * time.Millisecond)
+		}
+		if s.pauseMs > 0 && i == s.pauseAt {
+			time.Sleep(time.Duration(s.pauseMs) * time.Millisecond)
 		}
 		delay(s.delay(i))
 		s.log.add("read", -1, f.id)
@@ -120,6 +128,8 @@ type ptarget struct {
 	log        *plog
 	delay      func(i int) int
 	flushDelay int
+	blockAt    int // the target stops reading for blockMs when it has received this many features (blockMs 0 = never)
+	blockMs    int
 	got        []precv
 	done       atomic.Bool
 }
@@ -141,6 +151,9 @@ func (t *ptarget) WriteFeatures(ch <-chan processing.Feature) {
 		t.got = append(t.got, r)
 		delay(t.delay(i))
 		i++
+		if t.blockMs > 0 && i == t.blockAt {
+			time.Sleep(time.Duration(t.blockMs) * time.Millisecond)
+		}
 	}
 	// the last page: the target keeps working after its channel is closed
 	delay(t.flushDelay)
@@ -176,6 +189,7 @@ var pipeSet = grid.Spec{Depth: 4, Cell: 16, Origin: 0}
 func buildPipeline(pc *PipeCase) (feats []*pfeat, f func(p geom.Polygon, ids []int) map[int][]geom.Polygon, oracleF func(p geom.Polygon, ids []int) map[int][]geom.Polygon) {
 	rng := fw.NewRng(pc.Seed)
 	gs, _ := getSet(pipeSet)
+	heavyDone := false
 	for i := 0; i < pc.NFeatures; i++ {
 		ft := &pfeat{id: i}
 		ft.cols = []interface{}{int64(i), fmt.Sprintf("name-%d", i), float64(i) * 0.5, nil}
@@ -200,6 +214,13 @@ func buildPipeline(pc *PipeCase) (feats []*pfeat, f func(p geom.Polygon, ids []i
 			nParts := 1 + rng.Intn(4)
 			if pc.BigMulti && !pc.RealSnap {
 				nParts = fw.Pick(rng, []int{5, 8, 9, 16, 17, 31, 33, 63, 64, 65, 70, 100, 127, 129, 255, 257, 300}) + rng.Intn(3)
+				if !heavyDone && rng.Chance(1, 3) { // heavy tail: one feature per case with thousands of parts
+					heavyDone = true
+					nParts = fw.Pick(rng, []int{511, 1023, 1024, 1025, 2049, 4096, 5000, 10000, 20011}) + rng.Intn(3)
+					if pc.Plan == "slow-f" || pc.Plan == "jitter" { // the polygon function sleeps per part under these plans
+						nParts = min(nParts, 1027)
+					}
+				}
 			}
 			for part := 0; part < nParts; part++ {
 				if pc.RealSnap {
@@ -294,9 +315,15 @@ func runPipeline(pc *PipeCase) *pipeRun {
 		}
 	}
 	src := &psource{feats: feats, log: lg, delay: jit(rd, 1), stallMs: pc.StallMs}
+	if pc.LagMs > 0 {
+		src.pauseAt, src.pauseMs = len(feats)*2/3, pc.LagMs+1000
+	}
 	targets := map[int]processing.Target{}
 	for _, z := range pc.Targets {
 		t := &ptarget{id: z, log: lg, delay: jit(td[z], uint64(100+z)), flushDelay: flush[z]}
+		if pc.LagMs > 0 && z == last {
+			t.blockAt, t.blockMs = 10, pc.LagMs
+		}
 		run.targets[z] = t
 		targets[z] = t
 	}
